@@ -13,6 +13,7 @@ Real falcon.App and falcon.asgi.App objects are driven through the PEP 3333 / AS
 """
 
 import itertools
+import json
 import os
 import random
 import shutil
@@ -254,6 +255,10 @@ class World:
             p(rel)
         self.srv = os.path.join(self.root, 'srv')
         self.outside = [f for f in self.files if not f.startswith(self.srv + os.sep)]
+        # one directory per registration of a history app: the same names everywhere, different bytes
+        for k in range(LIFO_DIRS):
+            for rel in ('x.txt', 'a/x.txt', 'a/b/x.txt', 'b/x.txt', 'a/b/c/x.txt'):
+                p('lifo/d%d/%s' % (k, rel))
 
     NAME_CHARS = list('abcXYZ019-_') * 3 + list('. ~;+%&=,!@#$()[]{}^`\'"<>:*|?\\') + \
         ['\u00e9', '\u00fc', '\u20ac', '\U0001F600', '\x7f', '\x1f', '\t', '\uff0e', '\u00a0']
@@ -329,6 +334,68 @@ class World:
         self.by_name = {r.name: (a, r) for a in self.routes for r in self.routes[a]}
 
 
+# ---------------------------------------------------------------------------- registration histories
+
+LIFO_DIRS = 6
+LIFO_PREFIXES = ['/o', '/o/a', '/o/a/b']
+LIFO_PROBES = ['/o/x.txt', '/o/a/x.txt', '/o/a/b/x.txt']
+
+
+def hist_name(history):
+    """history: list of [prefix as given, directory index, fallback flag], in registration order."""
+    return 'H:' + json.dumps(history, separators=(',', ':'))
+
+
+def ensure_hist(world, name):
+    """Build (once) the WSGI and ASGI apps of a registration history: the k-th add_static_route() call serves
+    directory lifo/d<k'>; between two registrations the app answers requests.  The same procedure runs in replay."""
+    if name in world.routes:
+        return
+    history = json.loads(name[2:])
+    w, a, routes = falcon.App(), falcon.asgi.App(), []
+    world.wsgi[name], world.asgi[name], world.routes[name] = w, a, routes
+    for k, (prefix, di, fb) in enumerate(history):
+        d = os.path.join(world.root, 'lifo', 'd%d' % di)
+        kw = {'fallback_filename': 'x.txt'} if fb else {}
+        w.add_static_route(prefix, d, **kw)
+        a.add_static_route(prefix, d, **kw)
+        routes.append(M.Route('h%d' % k, prefix, d, os.path.join(d, 'x.txt') if fb else None, False))
+        if k < len(history) - 1:
+            for fw in ('wsgi', 'asgi'):
+                for pth in LIFO_PROBES:
+                    _execute(world, {'fw': fw, 'app': name, 'method': 'GET', 'raw_path': pth, 'headers': []},
+                             pth.encode(), [])
+
+
+def lifo_histories(rec):
+    """Every sequence of 2..N registrations over three nested prefixes (so prefixes get re-registered, with and
+    without the trailing slash, with other registrations in between); each registration has its own directory."""
+    maxlen = 4 if rec.tier == 'quick' else 5
+    idx = 0
+    for n in range(2, maxlen + 1):
+        for seq in itertools.product(range(len(LIFO_PREFIXES)), repeat=n):
+            idx += 1
+            yield idx, [[LIFO_PREFIXES[pi] + ('/' if (k + idx) % 2 else ''), k, bool(idx % 5 == 0 and k == n - 1)]
+                        for k, pi in enumerate(seq)]
+
+
+def lifo_cases(rec, world):
+    for idx, history in lifo_histories(rec):
+        if idx % rec.nshards != rec.shard:
+            continue
+        name = hist_name(history)
+        for tail in ('/x.txt', '', '/zz.txt', '/../x.txt', '/b/x.txt'):
+            for pre in LIFO_PREFIXES:
+                for fw in ('wsgi', 'asgi'):
+                    run_case(rec, world, {'fw': fw, 'app': name, 'method': 'GET', 'raw_path': pre + tail, 'headers': [],
+                                          'fwrap': False, 'tz': _TZ[0]})
+        rec.count('exh.lifo_histories')
+        rec.seen('lifo_history', name)
+        # the apps of a finished history are dropped (thousands of them in the thorough tier)
+        for table in (world.wsgi, world.asgi, world.routes):
+            table.pop(name, None)
+
+
 # ---------------------------------------------------------------------------- one request
 
 def hdr(res, name):
@@ -342,6 +409,8 @@ def execute(world, case):
     """Run one request against the real app with the open monitor armed."""
     raw = case['raw_path'].replace(ROOT_TOKEN, world.root).encode('utf-8')
     headers = [tuple(h) for h in case.get('headers', [])]
+    if case['app'].startswith('H:'):
+        ensure_hist(world, case['app'])
     if case.get('wfilter'):
         # the embedding process may run with warnings turned into errors (-W error / PYTHONWARNINGS)
         with warnings.catch_warnings():
@@ -676,9 +745,9 @@ def exhaustive_paths(rec, world):
                 continue
             tail = '/'.join(tup)
             pair = ROUTE_PAIRS[(idx // rec.nshards) % len(ROUTE_PAIRS)]
-            for rn in pair:
-                for fw in ('wsgi', 'asgi'):
-                    run_case(rec, world, mk(world, rn, tail, fw))
+            for j, rn in enumerate(pair):
+                # both frameworks see every path, through one route of the pair each (alternating)
+                run_case(rec, world, mk(world, rn, tail, ('wsgi', 'asgi')[(idx // rec.nshards + j) % 2]))
             rec.count('exh.paths')
             if idx % 4001 == 0:
                 rec.sample({'path': PREFIX[pair[0]] + tail.replace(world.root, ROOT_TOKEN)})
@@ -1197,6 +1266,8 @@ def run(rec):
         'produce a self-consistent answer (400, whole file, or a 206/416 whose headers match the body)',
         'a wsgi.file_wrapper may transmit from the descriptor of an object that offers fileno(), from its current '
         'position to the end of the file (PEP 3333, optional platform-specific file handling)',
+        'static routes registered on one app are matched in LIFO order of the add_static_route() calls, also when a '
+        'prefix is registered again (documented: "static routes are matched in LIFO order")',
         'If-Modified-Since values outside IMF-fixdate may be rejected (400), ignored (200) or read tolerantly, but a 304 '
         'is only accepted when the value has a reading as a date (IMF / RFC 850 / asctime layout, zone GMT/UTC, numeric, '
         'or one of the workload zones\' abbreviations taken as that zone; two-digit years by the 50-year rule of RFC 9110 '
@@ -1215,7 +1286,7 @@ def run(rec):
             fd_diagnostic(rec, world)
         total = exhaustive_paths(rec, world)
         if rec.shard == 0:
-            rec.note('exhaustive over %d segment sequences (alphabet %d, length <= %d); each against 2 routes x 2 frameworks'
+            rec.note('exhaustive over %d segment sequences (alphabet %d, length <= %d); each against 2 routes, one per framework'
                      % (total, len(seg_alphabet(world)), 3 if rec.tier == 'quick' else 4))
         canary(rec, world)
         for i, (app, p) in enumerate(targeted_paths(world)):
@@ -1227,6 +1298,7 @@ def run(rec):
             rec.count('exh.targeted')
         range_cases(rec, world)
         ims_cases(rec, world)
+        lifo_cases(rec, world)
         rec.exhaustive = True
         random_phase(rec, world)
         canary(rec, world)
@@ -1242,7 +1314,8 @@ def run(rec):
                     ('route.none', 50), ('mon.404_noroute', 50), ('served.target', 2000), ('served.fallback', 200),
                     ('mon.body_full', 1000), ('mon.body_full_multiblock', 4), ('mon.body_partial', 800), ('mon.416', 200),
                     ('mon.304', 100), ('mon.ims_modified', 50), ('mon.range_lenient', 150), ('range.outcome.empty', 50),
-                    ('fw.wsgi', 8000), ('fw.asgi', 8000), ('exh.range', 1500), ('exh.range_big', 100), ('exh.ims', 500), ('exh.ims_odd', 1000),
+                    ('fw.wsgi', 8000), ('fw.asgi', 8000), ('exh.range', 1500), ('exh.range_big', 100), ('exh.ims', 500), ('exh.ims_odd', 1000), ('exh.lifo_histories', 100), ('route.h0', 80),
+                    ('route.h1', 200), ('route.h2', 300), ('route.h3', 300),
                     ('exh.targeted', 500), ('rand.requests', 400 if q else 2000), ('episode.requests', 16),
                     ('route.static', 500), ('route.dl', 500), ('route.fb', 500), ('route.fbabs', 500), ('route.nest', 200),
                     ('route.p', 500), ('route.subonly', 500), ('route.rootapp', 500), ('route.sstatic', 500),
